@@ -11,12 +11,13 @@ import partgen as pg
 
 PROP = 'C03'
 LEAN_TARGETS = ['MorphKgc.Props.C03']
-GEN_KEYS = []
+GEN_KEYS = ['group_set']
 M = 'MorphKgc.Props.C03'
 THEOREMS = [{'name': f'Props.C03.{n}', 'module': M} for n in [
     'C03_partial_separation', 'C03_maximal_separation', 'C03_disjoint_partial', 'C03_disjoint_maximal', 'C03_disjoint',
     'C03_disjoint_partial_syntactic', 'C03_file_nodup', 'tokenSafe_of_synSafe', 'C03_F1_ntriples_graph_only', 'C03_F1_nquads_differ',
-    'C03_F2_reference_iri_breaks_tokens', 'C03_F3_literal_type_on_iri']] + [
+    'C03_F2_reference_iri_breaks_tokens', 'C03_F3_literal_type_on_iri', 'C03_group_accumulator', 'C03_group_no_duplicates',
+    'C03_group_list_counterwitness']] + [
     {'name': 'Py.scan_separates', 'module': 'MorphKgc.Lemmas.Scan'}, {'name': 'Py.prefix_interval', 'module': 'MorphKgc.Lemmas.Scan'}]
 RULE = ('generated documents (term maps with equal / nested / interleaved constant prefixes, several graph maps, typed and tagged literals, '
         'blank nodes) x tables whose cells are drawn from a Unicode alphabet AND from values assembled out of the mapping\'s own constants '
@@ -96,6 +97,40 @@ def crafted_f1_case(d):
                               'graphs': [{'kind': 'constant', 'value': 'http://ex.org/G1', 'termtype': 'iri'},
                                          {'kind': 'constant', 'value': 'http://ex.org/G2', 'termtype': 'iri'}]}]}]}
     c = cc.Case(d, doc, {path: rows}, {path: ['id']})
+    c.write_mapping()
+    return c
+
+
+def collapse_case(d, variant):
+    """distinct source rows that collapse to ONE statement inside a single rule (so only the per-group set removes the
+    duplicate): a two-reference template whose values concatenate equally, percent-encoding that maps different rows to
+    different text but a typed literal whose canonical form is shared, and a many-to-one join"""
+    os.makedirs(d, exist_ok=True)
+    const = lambda v: {'kind': 'constant', 'value': v, 'termtype': 'iri'}
+    path = os.path.join(d, 't0.csv')
+    if variant == 'concat':
+        rows = [{'a': '1', 'b': '23'}, {'a': '12', 'b': '3'}, {'a': '9', 'b': '9'}]
+        cols = ['a', 'b']
+        subj = dict(cg.tpl_map({'pre': 'http://ex.org/s/', 'parts': [['a', ''], ['b', '']]}, 'iri'), classes=[], graphs=[])
+        poms = [{'predicates': [const('http://ex.org/p')], 'objects': [const('http://ex.org/o')], 'graphs': []}]
+        tms = [{'id': 'http://ex.org/tm/K', 'source': path, 'subject': subj, 'poms': poms}]
+    elif variant == 'canon':
+        rows = [{'k': 'x', 'v': 'TRUE'}, {'k': 'x', 'v': 'true'}, {'k': 'x', 'v': 'True'}, {'k': 'y', 'v': 'false'}]
+        cols = ['k', 'v']
+        subj = dict(cg.tpl_map({'pre': 'http://ex.org/s/', 'parts': [['k', '']]}, 'iri'), classes=[], graphs=[])
+        poms = [{'predicates': [const('http://ex.org/p')],
+                 'objects': [{'kind': 'reference', 'value': 'v', 'termtype': 'literal', 'datatype': cg.XSD + 'boolean'}], 'graphs': []}]
+        tms = [{'id': 'http://ex.org/tm/K', 'source': path, 'subject': subj, 'poms': poms}]
+    else:  # join: children c1, c2 of the same subject point to the same parent subject
+        rows = [{'s': 's1', 'c': 'c1', 'd': 'math'}, {'s': 's1', 'c': 'c2', 'd': 'math'}, {'s': 's2', 'c': 'c3', 'd': 'art'}]
+        cols = ['s', 'c', 'd']
+        child = dict(cg.tpl_map({'pre': 'http://ex.org/s/', 'parts': [['s', '']]}, 'iri'), classes=[], graphs=[])
+        parent = dict(cg.tpl_map({'pre': 'http://ex.org/d/', 'parts': [['d', '']]}, 'iri'), classes=[], graphs=[])
+        tms = [{'id': 'http://ex.org/tm/Child', 'source': path, 'subject': child,
+                'poms': [{'predicates': [const('http://ex.org/in')], 'objects': [{'parent': 'http://ex.org/tm/Parent', 'join': [['c', 'c']]}], 'graphs': []}]},
+               {'id': 'http://ex.org/tm/Parent', 'source': path, 'subject': parent, 'poms': []}]
+    assert cg.write_csv(path, cols, rows)
+    c = cc.Case(d, {'tms': tms}, {path: rows}, {path: cols})
     c.write_mapping()
     return c
 
@@ -255,6 +290,10 @@ def run(ctx, lean, findings):
             cli_case(ctx, case, fmt, mode, use_dir=bool(it % 2))
         if not ctx.escalate and ctx.elapsed() > (80 if ctx.tier == 'quick' else 780):
             break
+    # rows that collapse to one statement inside a single-rule group: only the per-group set keeps the file duplicate-free
+    for k, variant in enumerate(['concat', 'canon', 'join']):
+        c = collapse_case(os.path.join(ctx.tmp, f'collapse{k}'), variant)
+        cli_case(ctx, c, 'N-QUADS' if k % 2 else 'N-TRIPLES', 'PARTIAL-AGGREGATIONS' if k != 1 else 'MAXIMAL', use_dir=(k == 2))
     # the recorded findings in their crafted minimal form
     open_ids = {f['id'] for f in findings if f.get('status') == 'open'}
     if 'C03_F1' in open_ids:
